@@ -21,7 +21,10 @@ PLAN = dict(
              "destructor chains, calls, cocases, goto, exit, print sequences; many definitions/parameters/constructors/types; long identifiers, comments, "
              "blank runs; unclosed brackets) at depth 10, 100, 1000 (or 1000 syntax-tree levels), 5000, each in a child process with the default 8 MiB "
              "stack and through the release scc binary; (f) 77 entry-point shapes (empty file, no main, main with 0..300 parameters, data/codata/"
-             "function/covariable parameters, main returning an object, main twice, definitions/variables/types named like runtime symbols); 21 one-line texts with an error / no error around column 65536; (g) 15% "
+             "function/covariable parameters, main returning an object, main twice, definitions/variables/types named like runtime symbols); 21 one-line texts with an error / no error around column 65536; 20% identifier-kind swaps of accepted programs "
+             "(one identifier or literal replaced by a visible identifier of another kind or type, or by a small term, stratified over position x old kind x new kind, "
+             "variable<->covariable swaps in value positions first); 212 directed guard probes (corpus/robust/guards); 186 accepted programs with types of printed "
+             "width 86..114 and around 40..300, names of 60..1000 characters, long literal lists; (g) 15% "
              "certainly ill-typed mutants of generated programs and /repo/testsuite/fail_check. Every UTF-8 text: parse_module, check, fun2core, focus, "
              "shrink, linearize, three code generators, into_*_routine, every printer, each under catch_unwind; every non-UTF-8 text, every input of "
              "(d)(f) in 2 positions, every witness and every 25th other input (>= 100 per run): scc check / compile / codegen x86-64 / codegen "
@@ -36,6 +39,7 @@ PLAN = dict(
         assumptions=["catch_unwind observes every panic of the library crates (they are built with panic=unwind by the harness profile); aborts and stack overflows are observed in child processes",
                      "the scc binary is built from the current /repo tree by cargo (debug profile for the sample: overflow checks on; release profile for the nesting stream)",
                      "nesting depth <= 1000 syntax-tree levels is what 'within stack limits' means for the default 8 MiB main-thread stack; deeper inputs are recorded, not judged",
+                     "a run that exceeds its time limit twice (second try with five times the limit) is inconclusive (tag timeout-inconclusive), never a violation",
                      "programs without a valid entry point are outside the property's promise: the two entry-point panics of the unchanged code generators (`too many arguments for main`, defs[0] on a program without definitions) are tagged, any other panic is a violation"],
         trusted=["harness/src/cmd_robust.rs computes the verdicts of the robust step (modelrun only relays them)"],
     )
